@@ -6,7 +6,7 @@ from engine import Property, Finding
 class C19(Property):
     id = "C19"
     families = ["equiv"]
-    rule = ("compact frameworks (ICCMA route incl. duplicate attacks; removal-free histories): exhaustive digraphs n<=2 (quick) / n<=3 (thorough), random and structured up to 8 arguments "
+    rule = ("compact frameworks (ICCMA route incl. duplicate attacks; removal-free histories): exhaustive digraphs n<=2 (quick) / n<=3 (thorough), random and structured up to 8 arguments, plus sparse frameworks of 10-40 arguments with a hub (compared with the model and checked for partition / inverse maps only) "
             "(chains, hierarchies, rings, self-attacks); compared with the Lean model: classes, both mappings, reduced framework; judged: classes partition the arguments, the two maps are "
             "inverse at class level, and every merged pair has identical membership in all complete extensions (reference enumeration, <= 9 arguments); non-trivial = some class has >= 2 members")
     assumptions = ["reference enumeration of complete extensions for frameworks up to 9 arguments"]
@@ -18,6 +18,8 @@ class C19(Property):
             fws += list(gen.all_digraphs(n))
         for _ in range(4000 if tier == "quick" else 900000):
             fws.append(gen.random_framework(rng, 8))
+        for _ in range(60 if tier == "quick" else 3000):
+            fws.append(gen.medium_framework(rng, 10, 40))
         for (n, atts) in fws:
             if rng.random() < 0.7:
                 spec, _ = gen.spec_iccma(rng, n, atts)
